@@ -206,6 +206,21 @@ def s_unwrap_or_else(m, callee, args, path, fn, dst, depth):
     return outs
 
 
+def s_expect(m, callee, args, path, fn, dst, depth):
+    """Option::expect / unwrap (and the Result versions): the absent / error case is a panic path"""
+    opt = args[0]
+    outs = []
+    names = ("None", "Some") if callee.startswith("Option") else ("Err", "Ok")
+    for (q, n, oq) in fork_variant(m, path, opt, names):
+        if n in ("Some", "Ok"):
+            outs.append((q, payload_of(oq, n, "", n.lower())))
+        else:
+            q.panic = f"{callee.split('::<')[0]}::{'expect' if 'expect' in callee else 'unwrap'} on {n}"
+            q.log.append(("panic", q.panic, fn.name[-60:]))
+            m.panics.append(q)
+    return outs
+
+
 def s_model_count(kind):
     def h(m, callee, args, path, fn, dst, depth):
         v = count_of(kind, args[0])
@@ -300,6 +315,7 @@ COMMON = [
     (r"as FromResidual<.*>>::from_residual$", s_from_residual),
     (r"^Option::<.*>::ok_or::<", s_ok_or),
     (r"^Option::<.*>::unwrap_or_else::<", s_unwrap_or_else),
+    (r"^(Option|Result)::<.*>::(expect|unwrap)$", s_expect),
     (r"SeparableNonlinearModel>::output_len$", s_model_count("output_len")),
     (r"SeparableNonlinearModel>::parameter_count$", s_model_count("parameter_count")),
     (r"SeparableNonlinearModel>::base_function_count$", s_model_count("base_function_count")),
